@@ -318,6 +318,9 @@ class Scenario:
         if self.replay:
             return
         if self.twins > 0:
+            # the twin was refuted when it was asked; make sure later path conditions did not make the run vacuous
+            if any(o["how"] == "z3" for o in self.obligations) and CTX.pc_sat(10000) == "unsat":
+                raise HarnessError("path condition became unsatisfiable during the run: vacuous")
             return
         ok, bad = self._witness_satisfies_pc()
         if not ok:
